@@ -18,17 +18,18 @@ OPNAME = {1: 'getValue', 2: 'setValue', 3: 'getRow', 4: 'getColumn', 5: 'setRow'
           9: 'transposeInPlace', 90: 'transpose', 10: 'addScalar', 11: 'prodScalar', 12: 'multiplyRow', 13: 'multiplyColumn',
           14: 'divideRow', 15: 'divideColumn', 16: 'addMatInPlace', 17: 'linearCombination', 18: 'prodMatVecInPlace',
           19: 'prodVecMatInPlace', 20: 'prodMatVec', 21: 'prodVecMat', 22: 'prodMatMatInPlace', 23: 'prodNormMatMatInPlace',
-          24: 'prodNormMatVecInPlace', 25: 'sample', 26: 'unsample', 27: 'copyReduce', 28: 'isSymmetric', 0: 'createFromTriplet',
+          24: 'prodNormMatVecInPlace', 30: 'trace', 31: 'normVec', 32: 'prodByDiagInPlace', 33: 'prodDiagByVector', 25: 'sample', 26: 'unsample', 27: 'copyReduce', 28: 'isSymmetric', 0: 'createFromTriplet',
           40: 'createFromAnyMatrix'}
 GEN_OPS = {3, 4, 5, 6, 8, 10, 11, 12, 13, 14, 15, 16, 22, 23, 24}         # ops that also have a generic AMatrix:: fallback
 STNAME = {0: 'MatrixRectangular', 1: 'MatrixSquareGeneral', 2: 'MatrixSquareSymmetric'}
 VECOP = {1: 'VectorNumT::sum', 2: 'VectorNumT::maximum', 3: 'VectorNumT::minimum', 4: 'VectorNumT::mean', 5: 'VectorNumT::norm',
          6: 'VectorNumT::innerProduct', 7: 'VectorNumT::arith', 8: 'VH::reduce', 9: 'VH::innerProduct', 10: 'VH::arith',
          11: 'VH::cumsum', 12: 'VH::sequence(int)', 13: 'VH::sequence(double)', 14: 'VH::orderRanks', 15: 'VH::sortRanks',
-         16: 'VH::arrangeInPlace', 17: 'VH::unique', 18: 'VH::sort'}
+         16: 'VH::arrangeInPlace', 17: 'VH::unique', 18: 'VH::sort', 19: 'VH::addInPlace(span)'}
 SOLVEOP = {1: 'CholeskyDense::LX', 2: 'CholeskyDense::LtX', 3: 'CholeskyDense::InvLX', 4: 'CholeskyDense::InvLtX', 5: 'CholeskyDense::solve',
            6: 'CholeskyDense::getLowerTriangle', 7: 'CholeskyDense::getUpperTriangleInverse', 8: 'CholeskyDense::matProductInPlace',
-           10: 'MatrixSquareGeneral::_forwardLU', 11: 'MatrixSquareGeneral::_backwardLU'}
+           10: 'MatrixSquareGeneral::_forwardLU', 11: 'MatrixSquareGeneral::_backwardLU',
+           12: 'MatrixSquareSymmetric::createFromTLTU', 13: 'MatrixSquareSymmetric::createFromTriangle'}
 
 # ----------------------------------------------------------------------------- generators
 def rnd_entry(rng, zero_p=0.15):
@@ -102,16 +103,17 @@ def shape_class(nr, nc):
 def dense_cases(rng, n_per_op):
     out = []
     def add(st, gen, op, m, args, rtype, quals=(), extra_size=0):
-        site = ('AMatrix' if gen else ('AMatrixDense' if op not in (7, 17, 25, 26, 27, 28) else
-                {7: 'AMatrix', 17: 'AMatrix', 25: 'MatrixRectangular', 26: 'MatrixRectangular', 27: 'AMatrix', 28: 'AMatrix'}[op])) + '::' + OPNAME[op]
+        site = ('AMatrix' if gen else ('AMatrixDense' if op not in (7, 17, 25, 26, 27, 28, 30, 31, 32, 33) else
+                {7: 'AMatrix', 17: 'AMatrix', 25: 'MatrixRectangular', 26: 'MatrixRectangular', 27: 'AMatrix', 28: 'AMatrix',
+                 30: 'AMatrixSquare', 31: 'AMatrixSquare', 32: 'AMatrixSquare', 33: 'AMatrixSquare'}[op])) + '::' + OPNAME[op]
         q = list(quals)
         if st == 2: q.append('symmetric-storage')
         q.append(shape_class(m.nr, m.nc))
         out.append(dict(case=[1, 1, st, 1 if gen else 0, op, m.sx()] + args, rtype=rtype, site=site, quals=q,
                         size=m.nr * m.nc + extra_size, kind='dense', op=op, st=st))
     for it in range(n_per_op):
-        for op in (1, 2, 3, 4, 5, 6, 7, 8, 9, 10, 11, 12, 13, 14, 15, 16, 17, 18, 19, 20, 21, 22, 23, 24, 25, 26, 27, 28):
-            st = rng.choice([0, 0, 0, 1, 2])
+        for op in (1, 2, 3, 4, 5, 6, 7, 8, 9, 10, 11, 12, 13, 14, 15, 16, 17, 18, 19, 20, 21, 22, 23, 24, 25, 26, 27, 28, 30, 31, 32, 33):
+            st = rng.choice([0, 0, 0, 1, 2]) if op < 30 else rng.choice([1, 1, 2])
             gen = (op in GEN_OPS) and rng.random() < .4
             nr, nc = rnd_shape(rng, square=(st != 0))
             m = rnd_mat(rng, nr, nc, sym=(st == 2))
@@ -201,6 +203,12 @@ def dense_cases(rng, n_per_op):
                 x = rnd_mat(rng, *rnd_shape(rng, minimum=1))
                 rows = [rng.randrange(x.nr) for _ in range(rng.randint(0, nr))]; cols = [rng.randrange(x.nc) for _ in range(rng.randint(0, nc))]
                 add(st, False, op, m, [x.sx(), rows, cols], 'M')
+            elif op == 30: add(st, False, op, m, [], 'Q')
+            elif op == 31: add(st, False, op, m, [V(rnd_vec(rng, nr if rng.random() < .85 else nr + 1))], 'OQ')
+            elif op == 32:
+                if nr == 0: continue
+                mode = rng.choice([0, 2]); add(st, False, op, m, [mode, V(rnd_vec(rng, nr, nonzero=True))], 'M', quals=['mode%d' % mode])
+            elif op == 33: add(st, False, op, m, [V(rnd_vec(rng, nr if rng.random() < .85 else nr + 1, nonzero=True))], 'M')
             elif op == 28:
                 if st == 0 and rng.random() < .5:
                     n = rng.randint(1, 5); m = rnd_mat(rng, n, n, sym=rng.random() < .6)
@@ -303,6 +311,7 @@ def vec_cases(rng, n):
         add(14, [[dy(x) for x in tv], asc, size], 'IV', ['ascending' if asc else 'descending'])
         add(15, [[dy(x) for x in tv], asc, size], 'IV', ['ascending' if asc else 'descending'])
         add(16, [1 if rng.random() < .5 else 0, [rng.randint(0, 9) for _ in range(k)] if rng.random() < .8 else [], [dy(x) for x in tv], asc, size], 'AR')
+        add(19, [V(v), V(rnd_vec(rng, k + rng.choice([0, 0, 1, 3])))], 'V')
         add(17, [V([Fraction(rng.randint(-2, 2)) for _ in range(k)])], 'V')
         add(18, [V(v), asc], 'V')
     return out
@@ -322,6 +331,8 @@ def solve_cases(rng, n):
         mode = rng.randrange(6)
         r = rnd_mat(rng, *((k, rng.randint(1, 4)) if mode in (0, 1) else (rng.randint(1, 4), k)))
         add(8, [mode, A.sx(), G.sx(), r.sx()], 'M', k * k)
+        tl = rnd_vec(rng, k * (k + 1) // 2)
+        add(12, [k, V(tl)], 'M', k * k); add(13, [rng.choice([0, 1]), k, V(tl)], 'M', k * k)
         Lo = Mat(k, k, lambda i, j: (rng.choice([1, 2, -2, 4]) if i == j else (rng.randint(-3, 3) if j < i else rng.randint(-3, 3))))
         add(10, [Lo.sx(), V(x)], 'V', k * k); add(11, [Lo.sx(), V(x)], 'V', k * k)
     return out
@@ -443,6 +454,97 @@ def session_cases(rng, nsess, fam):
             step_sx.append([op, gen, r, ix, iy, tx, ty, V(v), dy(c1), dy(c2)])
             pool[r]['M'] = new
         sessions.append(dict(case=[7, 1, fam, pool_sx, step_sx], fam=fam, sid=sid, nsteps=len(step_sx)))
+    return sessions, steps
+
+
+def mixed_session_cases(rng, nsess):
+    """family 3: pools mixing dense classes and sparse matrices (one back-end per session); every call goes through the
+    AMatrix interface, so products / sums with operands of different classes run the generic fallbacks"""
+    sessions, steps = [], []
+    for sid in range(nsess):
+        be = rng.choice([0, 1, 1])
+        n = rng.randint(1, 4); m = rng.randint(1, 4)
+        if m == n and rng.random() < .7: m = n % 4 + 1
+        pool = []
+        for (r, c) in [(n, m), (n, m), (m, n), (n, n), (m, m), (n, n), (m, n)]:
+            sparse = rng.random() < .5
+            pool.append(dict(kind=(3 + be) if sparse else (0 if (r != c or rng.random() < .5) else 1), M=rnd_mat(rng, r, c, zero_p=.25)))
+        pool_sx = [[e['kind'], sparse_sx(rng, e['M'], 'plain')[0] if e['kind'] >= 3 else e['M'].sx()] for e in pool]
+        step_sx = []
+        for k in range(rng.randint(1, 4)):
+            found = None
+            for _ in range(60):
+                op = rng.choice([22, 22, 22, 22, 220, 17, 17, 16, 23, 23, 23])
+                r, ix, iy = rng.randrange(len(pool)), rng.randrange(len(pool)), rng.randrange(len(pool))
+                if rng.random() < .3: iy = ix
+                if rng.random() < .25 and op != 16: ix = r
+                tx, ty = rng.randint(0, 1), rng.randint(0, 1)
+                R, X, Y = pool[r], pool[ix], pool[iy]
+                kinds = [R['kind'], Y['kind']] + ([X['kind']] if op != 220 else [])
+                if op == 16: kinds = [R['kind'], X['kind']]
+                all_sparse = all(kk >= 3 for kk in kinds); all_dense = all(kk <= 2 for kk in kinds)
+                # receivers reached through the generic loops must accept setValue on absent entries: dense or Eigen-sparse
+                generic = not (op in (22, 220) and (all_sparse or all_dense))
+                if R['kind'] == 3 and generic: continue
+                RM, XM, YM = R['M'], X['M'], Y['M']
+                if op in (22, 220):
+                    if op == 220: ix, X, XM, tx = r, R, RM, 0
+                    xr, xc = (XM.nc, XM.nr) if tx else (XM.nr, XM.nc); yr, yc = (YM.nc, YM.nr) if ty else (YM.nr, YM.nc)
+                    if xc != yr or (RM.nr, RM.nc) != (xr, yc): continue
+                    new = (XM.T() if tx else XM).mul(YM.T() if ty else YM)
+                elif op == 17:
+                    if not ((XM.nr, XM.nc) == (RM.nr, RM.nc) == (YM.nr, YM.nc)): continue
+                elif op == 16:
+                    iy = ix; Y = X; YM = XM
+                    if (XM.nr, XM.nc) != (RM.nr, RM.nc): continue
+                else:
+                    if r in (ix, iy): continue
+                    n1, n2 = (XM.nc, XM.nr) if tx else (XM.nr, XM.nc)
+                    if not (YM.nr == n2 == YM.nc and RM.nr == n1 == RM.nc): continue
+                found = (op, r, ix, iy, tx, ty, generic, all_sparse); break
+            if not found: break
+            op, r, ix, iy, tx, ty, generic, all_sparse = found
+            R, X, Y = pool[r], pool[ix], pool[iy]; RM, XM, YM = R['M'], X['M'], Y['M']
+            c1 = Fraction(rng.choice([1, 2, -1, 3])); c2 = Fraction(rng.choice([1, -1, 2]))
+            quals = ['mixed-classes'] if generic and not (all(kk <= 2 for kk in (R['kind'], X['kind'], Y['kind']))) else []
+            st_r = R['kind'] if R['kind'] <= 2 else 0
+            if op in (22, 220):
+                new = (XM.T() if tx else XM).mul(YM.T() if ty else YM)
+                quals.append('tx%dty%d' % (tx, ty)); alias_this = (op == 220 or r in (ix, iy))
+                if alias_this: quals.append('alias-this')
+                if op == 22 and ix == iy: quals.append('alias-xy')
+                if not generic and all_sparse:
+                    mcase = [2, 1, R['kind'] - 3, 22, sparse_sx(rng, RM, 'plain')[0], sparse_sx(rng, XM, 'plain')[0], sparse_sx(rng, YM, 'plain')[0], tx, ty]
+                    site = 'MatrixSparse::prodMatMatInPlace'; quals = ['eigen' if R['kind'] == 4 else 'cs'] + quals; kind = 'sparse'
+                else:
+                    g = 1 if generic else 0
+                    if alias_this: mcase = [1, 1, st_r, g, 221, RM.sx(), XM.sx(), YM.sx(), tx, ty, 1 if (op == 220 or ix == r) else 0, 1 if (op == 22 and iy == r) else 0]
+                    else: mcase = [1, 1, st_r, g, 22, RM.sx(), XM.sx(), YM.sx(), tx, ty]
+                    site = ('AMatrix' if g else 'AMatrixDense') + '::prodMatMatInPlace'; kind = 'dense'
+                mop = 22
+            elif op == 17:
+                new = mat_lin(c1, XM, c2, YM); mcase = [1, 1, st_r, 0, 17, RM.sx(), dy(c1), XM.sx(), dy(c2), YM.sx(), dy(1), []]
+                site = 'AMatrix::linearCombination'; kind = 'dense'; mop = 17
+                if r in (ix, iy): quals.append('alias-this')
+                if ix == iy: quals.append('alias-xy')
+            elif op == 16:
+                new = mat_lin(c1, RM, c2, XM); mcase = [1, 1, st_r, 1, 16, RM.sx(), XM.sx(), dy(c1), dy(c2)]
+                site = 'AMatrix::addMatInPlace'; kind = 'dense'; mop = 16
+                if ix == r: quals.append('alias-this')
+            else:
+                A = XM.T() if tx else XM; new = A.mul(YM).mul(A.T()); mcase = [1, 1, st_r, 1, 23, RM.sx(), XM.sx(), YM.sx(), tx]
+                site = 'AMatrix::prodNormMatMatInPlace'; kind = 'dense'; mop = 23
+                if tx: quals.append('transpose')
+                if ix == iy: quals.append('alias-xy')
+            if R['kind'] >= 3 and kind == 'dense': quals.append('sparse-receiver')
+            if k > 0: quals.append('reused-receiver')
+            quals.append(shape_class(RM.nr, RM.nc))
+            steps.append(dict(case=mcase, rtype='M', site=site, quals=quals, size=RM.nr * RM.nc + 100 * k, kind=kind, op=mop,
+                              st=(R['kind'] if kind == 'dense' and R['kind'] <= 2 else (R['kind'] if R['kind'] >= 3 else 0)),
+                              session=(3, sid, k), expected=new))
+            step_sx.append([op, 0, r, ix, iy, tx, ty, [], dy(c1), dy(c2)])
+            pool[r]['M'] = new
+        sessions.append(dict(case=[7, 1, 3, pool_sx, step_sx], fam=3, sid=sid, nsteps=len(step_sx)))
     return sessions, steps
 
 # ----------------------------------------------------------------------------- decoding of results
@@ -616,6 +718,8 @@ def run(ctx):
     for fam in (0, 1, 2):
         ss, st = session_cases(rng, (60 if fam == 0 else 25) if quick else (700 if fam == 0 else 250), fam)
         sessions += ss; gens += st
+    ss, st = mixed_session_cases(rng, 60 if quick else 600)
+    sessions += ss; gens += st
     gens = corpus + gens
     ctx.log('generated %d model cases (+%d corpus), %d sessions' % (len(gens) - len(corpus), len(corpus), len(sessions)))
 
